@@ -226,7 +226,7 @@ func runSpec(r *core.Run, rtl bool) int {
 		}
 		return replaySpec(w)
 	})
-	nPat := r.Pick(1800, 20000)
+	nPat := r.Pick(2400, 24000)
 	maxLen := r.Pick(5, 6)
 	nDirected := r.Pick(40, 120)
 	base := rand.New(rand.NewSource(r.Seed*7919 + 17)).Int63()
@@ -252,7 +252,7 @@ func runSpec(r *core.Run, rtl bool) int {
 		prof := specProfile(rng, icCapable, rtl)
 		g := gen.NewG(rng, prof)
 		var pat *gen.Pattern
-		if i%3 == 2 {
+		if i%2 == 0 {
 			// a shape template (search modes, rewrite side conditions) when it lies inside the fragment
 			t := &gen.T{R: rng, Let: prof.Letters}
 			for tries := 0; tries < 8 && pat == nil; tries++ {
